@@ -91,6 +91,9 @@ def with_defaults():
             {"allOf": [{"type": "string", "default": "inner"}], "default": d},
             {"anyOf": [{"type": "object", "title": "O1"}], "default": d},
         ]
+    for inner, outer in [(0, False), (False, 0), (1, True), (1, 1.0), (1.0, 1), ([0], [False]), ({"a": 1}, {"a": True}), ("a", "a"), (0, 0)]:
+        out += [{"allOf": [{"type": ["integer", "boolean", "number", "array", "string"], "default": inner}], "default": outer},
+                {"anyOf": [{"default": inner}], "default": outer}]
     return out
 
 
